@@ -134,7 +134,7 @@ def main():
         ],
         'checks': checks,
         'not_applicable': na,
-        'notes': 'Exit codes: 0 held, 1 reproduced violation (VIOLATION line), 3 harness error. known_findings.json lists open findings and fixed defects.',
+        'notes': 'Exit codes: 0 held, 1 reproduced violation (VIOLATION line), 3 harness error / no verdict (shim gap, non-reproducing model, incomplete exploration, time budget VERIF_CHECK_BUDGET_S used up). known_findings.json lists open findings and fixed defects. seeded/RESULTS.md: 80 seeded changes against the quick tier; refactorings/RESULTS.md: 20 behaviour-preserving refactorings (no alarm expected); crosscheck/REPORT.json: sampled queries re-solved by cvc5 and z3 4.8.12 (tools/crosscheck.py, not part of the registered commands).',
     }
     with open(os.path.join(HERE, 'MANIFEST.json'), 'w') as f:
         json.dump(manifest, f, indent=1)
